@@ -14,30 +14,35 @@ SYMPY_CLASH = ["beta", "gamma", "zeta", "E", "I", "S", "N", "Q", "O", "re", "im"
 PLAIN = ["V", "m", "h", "n", "g_Na", "E_K", "k1", "tau", "Cai", "x_inf", "alpha", "rate", "GK", "w", "q10"]
 
 
-def gen_mmt(rng: random.Random, nested: str = "none"):
+def gen_mmt(rng: random.Random, nested: str = "none", local_names: bool = False):
     """a small Myokit model as .mmt text.  nested: none | unique | repeated (the same local names
-    under several parents, as in tests/mmt_files/example.mmt)"""
-    ncomp = rng.randint(1, 3)
+    under several parents, as in tests/mmt_files/example.mmt).  local_names: names are unique within a
+    component only (ina.m and ito.m, as in most published cell models; imported as ina_m / ito_m)"""
+    ncomp = rng.randint(2, 3) if local_names else rng.randint(1, 3)
     comps = [f"c{i}" for i in range(ncomp)]
     used = set()
+    cur = [None]
 
     def nm(pool):
+        if local_names:
+            pool = pool[:3]
         for _ in range(50):
             n = rng.choice(pool)
-            if n not in used:
-                used.add(n)
+            if ((cur[0], n) if local_names else n) not in used:
+                used.add((cur[0], n) if local_names else n)
                 return n
         n = f"v{len(used)}"
-        used.add(n)
+        used.add((cur[0], n) if local_names else n)
         return n
 
     states, consts, inters = [], [], []   # (comp, name, ...)
     clash = rng.random() < 0.5
     for c in comps:
+        cur[0] = c
         for _ in range(rng.randint(1, 2)):
             states.append((c, nm(SYMPY_CLASH if clash and rng.random() < 0.4 else PLAIN), round(rng.uniform(-2, 2), 3)))
         for _ in range(rng.randint(1, 2)):
-            consts.append((c, nm(SYMPY_CLASH if clash and rng.random() < 0.4 else PLAIN), round(rng.uniform(0.2, 3), 3)))
+            consts.append((c, nm(SYMPY_CLASH if clash and rng.random() < 0.4 else PLAIN[3:] if local_names else PLAIN), round(rng.uniform(0.2, 3), 3)))
     allv = [(c, n) for c, n, _ in states] + [(c, n) for c, n, _ in consts]
 
     def ref(c, target):
@@ -89,8 +94,9 @@ def gen_mmt(rng: random.Random, nested: str = "none"):
                 lines.append(f"{n} = {v}" + (" [mV]" if rng.random() < 0.3 else ""))
         ninter = rng.randint(0, 2)
         locals_ = []
+        cur[0] = c
         for k in range(ninter):
-            n = nm(PLAIN + (SYMPY_CLASH if clash else []))
+            n = nm((PLAIN[6:] if local_names else PLAIN) + (SYMPY_CLASH if clash else []))
             lines.append(f"{n} = {expr(c, 2)}")
             locals_.append((c, n))
         allv_c = allv + locals_
@@ -310,7 +316,7 @@ def c15_run(ctx: Ctx):
             c15_case(ctx, {"kind": "mmt-text", "text": text, "nested": "none", "special": f"timevar/{tn}"})
     for k in range(ctx.n(14, 200)):
         nested = ["none", "none", "unique", "repeated"][k % 4]
-        text = gen_mmt(ctx.rng, nested)
+        text = gen_mmt(ctx.rng, nested, local_names=(k % 4 == 1))
         with common.time_limit(ctx, 60):
             c15_case(ctx, {"kind": "mmt-text", "text": text, "nested": nested})
         if ctx.elapsed() > (1500 if ctx.thorough else 160):
